@@ -55,12 +55,15 @@ Register(n, k) ==
     /\ order' = [order EXCEPT ![n] = Append(@, k)]
     /\ UNCHANGED <<target, closed>>
 
-(* close_registration + aggregate key *)
+(* close_registration + aggregate key; a registration whose total stake is zero cannot be closed *)
+(* ("Cannot run the protocol if total stake is zero"): no key is derived, on any node               *)
 Close(n) ==
     /\ ~closed[n].done /\ pending[n] = {}
-    /\ closed' = [closed EXCEPT ![n] = [done |-> TRUE, leaves |-> SortedSeq(entries[n]),
-                                        nr     |-> Cardinality(entries[n]),
-                                        total  |-> Sum(entries[n])]]
+    /\ closed' = [closed EXCEPT ![n] = IF Sum(entries[n]) = 0
+                                       THEN [done |-> TRUE, leaves |-> <<>>, nr |-> 0, total |-> 0]
+                                       ELSE [done |-> TRUE, leaves |-> SortedSeq(entries[n]),
+                                             nr     |-> Cardinality(entries[n]),
+                                             total  |-> Sum(entries[n])]]
     /\ UNCHANGED <<target, entries, pending, order>>
 
 Next == \E n \in Node : Close(n) \/ \E k \in Key : Register(n, k)
@@ -76,7 +79,7 @@ Agreement ==
 
 (* the key is a function of the set only: it commits to exactly the registered pairs *)
 CommitsToSet ==
-    \A n \in Node : closed[n].done =>
+    \A n \in Node : (closed[n].done /\ closed[n].total > 0) =>
         /\ {closed[n].leaves[i] : i \in DOMAIN closed[n].leaves} = {<<target[k], k>> : k \in DOMAIN target}
         /\ closed[n].nr = Cardinality(DOMAIN target)
 
@@ -84,5 +87,5 @@ CommitsToSet ==
 AvkOf(t) == [leaves |-> SortedSeq({<<t[k], k>> : k \in DOMAIN t}),
              nr |-> Cardinality(DOMAIN t), total |-> Sum({<<t[k], k>> : k \in DOMAIN t})]
 AllTargets == UNION {[ks -> StakeVals] : ks \in (SUBSET Key) \ {{}}}
-Injective == \A t1, t2 \in AllTargets : t1 # t2 => AvkOf(t1) # AvkOf(t2)
+Injective == \A t1, t2 \in AllTargets : (t1 # t2 /\ AvkOf(t1).total > 0) => AvkOf(t1) # AvkOf(t2)
 =============================================================================
